@@ -275,7 +275,7 @@ package proxy
 
 // X-Cache says HIT exactly for a response served from the store without
 // contacting the origin; Age is computed from the time the entry was written.
-//@ props C03 C16 C15
+//@ props C03 C16 C15 C08
 //@ func addCacheHeaders
 //@   nopanic
 //@   requires req != nil
@@ -284,6 +284,8 @@ package proxy
 //@   ensures [C03] cacheStatus.hitStatus == 2 <==> sid(resphdr(r)["X-Cache"][len(resphdr(r)["X-Cache"])-1]) == sid("HIT")
 //@   ensures [C03] cached.some && (cacheStatus.hitStatus == 2 || cacheStatus.hitStatus == 1) && (decval(sid(cached.value.Metadata.Object.Header["Age"][0])) < 4000000000 || !in(cached.value.Metadata.Object.Header, "Age")) && now - cached.value.Metadata.TimeWritten < 9000000000000000000 && cached.value.Metadata.TimeWritten - now < 9000000000000000000 ==> decval(sid(resphdr(r)["Age"][0])) >= (now - cached.value.Metadata.TimeWritten) / 1000000000
 //@   assigns map_ responder.
+//@   ensures [C08] len(resphdr(r)["Via"]) == old(len(resphdr(r)["Via"])) + 1
+//@   ensures [C08] forall i int :: 0 <= i && i < old(len(resphdr(r)["Via"])) ==> sid(resphdr(r)["Via"][i]) == old(sid(resphdr(r)["Via"][i]))
 
 // ---------------------------------------------------------------- request handling (C16)
 
